@@ -146,3 +146,23 @@ fn c14_new_sized_for_every_index() {
     kani::cover!(counters == 9, "counters = 9 -> 16");
     core::mem::forget(fc);
 }
+
+// ---- constructors exported to other harness modules (state construction without the random seeds)
+pub(crate) fn vk_any_sketch(total: u64, seeds: [u64; 4]) -> FrequencyCounter { any_sketch(total, seeds) }
+/// width-`total` sketch, zero seeds, all counters zero
+pub(crate) fn vk_zero_sketch(total: u64) -> FrequencyCounter {
+    let bytes = (total / 2) as usize;
+    FrequencyCounter { matrix: [Row(vec![0; bytes]), Row(vec![0; bytes]), Row(vec![0; bytes]), Row(vec![0; bytes])], seeds: [0; 4], total_counters: total }
+}
+/// sets the 4-bit counter of `position` in every row to `value` (so that estimate(hash) == value when hash % total == position and seeds are zero)
+pub(crate) fn vk_set_counter(fc: &mut FrequencyCounter, position: u64, value: u8) {
+    let idx = (position / 2) as usize;
+    let mut r = 0;
+    while r < 4 {
+        let b = fc.matrix[r].0[idx];
+        fc.matrix[r].0[idx] = if position & 1 == 1 { (b & 0x0f) | (value << 4) } else { (b & 0xf0) | (value & 0x0f) };
+        r += 1;
+    }
+}
+pub(crate) fn vk_total(fc: &FrequencyCounter) -> u64 { fc.total_counters }
+pub(crate) fn vk_with_seeds(mut fc: FrequencyCounter, seeds: [u64; 4]) -> FrequencyCounter { fc.seeds = seeds; fc }
